@@ -519,6 +519,35 @@ def run_module(name, case, note):
                     num[fn] = getattr(mod, fn)(t, x, y, z)
                 except TypeError:          # homogeneous: rho(t)
                     num[fn] = getattr(mod, fn)(t)
+        # the same functions at a single position given as plain numbers:
+        # several of them need 3D arrays and raise (not asserted); those that
+        # return a value must return the value of the array call
+        if not case.get("int_coords"):
+            for fn in ("gdown4", "gammadown3", "Kdown3", "Tdown4", "alpha",
+                       "betaup3", "uup4", "Kretschmann"):
+                if fn not in num:
+                    continue
+                try:
+                    with np.errstate(all="ignore"):
+                        sv = np.asarray(getattr(mod, fn)(
+                            t, float(pts[0][0]), float(pts[0][1]),
+                            float(pts[0][2])), float)
+                except Exception:  # noqa: BLE001
+                    note.cls("scalar-position-rejected")
+                    continue
+                ref = np.asarray(at(num[fn], 0), float)
+                note.cls("scalar-position-accepted")
+                try:
+                    sv = sv.reshape(ref.shape)
+                except ValueError:
+                    note.fail(f"{fn}:scalar-position:shape",
+                              dict(got=list(sv.shape), want=list(ref.shape)))
+                    continue
+                sc = float(np.max(np.abs(ref))) + 1e-300
+                if not np.all(np.abs(sv - ref) <= 1e-12 * sc):
+                    note.fail(f"{fn}:scalar-position:value", dict(
+                        maxdiff=float(np.max(np.abs(sv - ref))), scale=sc,
+                        point=[t] + list(pts[0]), par=par))
         if hasattr(mod, "data"):
             check_data(mod, t, x, y, z, num, note)
         if name == "Szekeres":
